@@ -94,12 +94,13 @@ static void oracle(int full) {
      mandatory request exists (the serializer's contract, see h_serializer.c). It equals the number of granted workers,
      except in one corner (OBSERVATION, see NOTES.md): soft limit 0, the arena holding the mandatory request currently has
      demand 0 (e.g. its worker slots are taken by external threads) while another arena has demand: one thread is requested
-     although no arena can take it. The surplus thread executes no user work (no allotment), so C16 is not violated. */
+     although no arena can take it. The surplus thread executes no user work (no allotment), so C16 is not violated
+     (debug builds abort there: __TBB_ASSERT(assigned == max_workers), see repro_mandatory_corner.cpp). */
   int eff = (M > 0 && L == 0) ? 1 : L;
   VP_ASSERT(J == (total < eff ? total : eff), "threads requested from RML != min(total demand, effective soft limit)");
   VP_ASSERT(J >= sum, "fewer threads requested from RML than workers granted to arenas");
   if (!(L == 0 && M > 0 && total > 0 && !eligible)) VP_ASSERT(J == sum, "threads requested from RML != sum of the allotments");
-  else VP_ASSERT(J == 1 && sum == 0, "mandatory corner: expected exactly one surplus thread request");
+  else VP_ASSERT(sum == 0 && J <= 1, "mandatory corner: nobody may get a worker and at most the one mandatory thread may be requested");
 }
 
 static void adjust(int i, int last) {
